@@ -615,7 +615,8 @@ prop(
     min_evaluations={"quick": 2500 if "b2" in _C19_BUILDS else 1200, "thorough": 60000 if "b2" in _C19_BUILDS else 35000},
     must_see=[("apis", 4), ("selections", 5), ("shard_counts", 4), ("modes", 2), ("combinations", 160), ("executors", 6),
               ("cross_run_order_equal", 400), ("stream_shorter_than_hint_ok", 150), ("prss_runs_using_several_targets", 30),
-              ("fault_kinds", 3), ("error_classes", 3), ("failing_shard_returned_err", 250), ("other_shard_waits_forever", 100)]
+              ("fault_kinds", 3), ("error_classes", 3), ("failing_shard_returned_err", 250), ("other_shard_waits_forever", 100),
+              ("prf_reshard_order_equal_between_timings", 8), ("prf_reshard_cases_with_shards_without_rows", 3)]
              + ([("schedulers", 2), ("sh_schedules_ok_and_compared", 1000)] if "b2" in _C19_BUILDS else []),
 )
 
@@ -649,7 +650,7 @@ prop(
         "receive(i) for i > total is not probed (the receiver only reports EndOfStream to the request at the read cursor)",
         "non-completion is decided by shuttle's deadlock report or by quiescence under tokio's paused clock (60 virtual seconds), never by wall time",
         "in-memory transport (TestWorld); default role assignment",
-    , ("prf_reshard_order_equal_between_timings", 8), ("prf_reshard_cases_with_shards_without_rows", 3)],
+    ],
     builds={"quick": ["b1", "b2"], "thorough": ["b1", "b2", "tsan"]},
     shards={"quick": 8, "thorough": 16},
     min_evaluations={"quick": 30000, "thorough": 300000},
